@@ -280,13 +280,36 @@ func genHistory(r *vh.Rand) string {
 		b[i] = "_"
 	}
 	b[6] = encList(genVary(r))
-	return fmt.Sprintf("corsh c=%s;p=%s;m=%s;o=%s;a=%s;b=%s;h=-", strings.Join(confs, "~"), hx(product), hx(method), hx(origin),
-		hx(acrm), strings.Join(b[:], "|"))
+	// earlier requests served by the same module instance (their answers are discarded): same or other product, origins
+	// that other configurations allow, at any point of the history
+	pre := "_"
+	if r.Chance(2, 3) {
+		var ps []string
+		for k := r.Range(1, 3); k > 0; k-- {
+			pp, po := products[r.Intn(len(products))], origin
+			if len(earlier) > 0 && r.Chance(1, 2) {
+				e := earlier[r.Intn(len(earlier))]
+				pp, po = e.product, e.origin
+			}
+			if r.Chance(1, 2) {
+				pp = product
+			}
+			pm, pa := "GET", ""
+			if r.Chance(1, 3) {
+				pm, pa = "OPTIONS", "PUT"
+			}
+			ps = append(ps, fmt.Sprintf("%d.%s.%s.%s.%s", r.Range(0, n), hx(pp), hx(pm), hx(po), hx(pa)))
+		}
+		pre = strings.Join(ps, ",")
+	}
+	return fmt.Sprintf("corsh c=%s;p=%s;m=%s;o=%s;a=%s;b=%s;h=-;pre=%s", strings.Join(confs, "~"), hx(product), hx(method), hx(origin),
+		hx(acrm), strings.Join(b[:], "|"), pre)
 }
 
 func genFilesOp(r *vh.Rand) string {
 	h := genHistory(r) // same shape; turn the confs into rule files with file-level flags
 	f := strings.Split(h[6:], ";")
+	f = f[:7] // no earlier requests in the file stream
 	cs, _ := kv(f[0], "c")
 	var out []string
 	for _, c := range strings.Split(cs, "~") {
@@ -562,8 +585,15 @@ func ruleFile(flag, version string, products []string, raws map[string]mod_cors.
 func execHistory(op string) string {
 	files := strings.HasPrefix(op, "corsf ")
 	f := strings.Split(op[6:], ";")
-	if (!files && len(f) != 7) || (files && len(f) != 9) {
+	if (!files && len(f) != 7 && len(f) != 8) || (files && len(f) != 9) {
 		return "bad-op"
+	}
+	pres := "_"
+	if !files && len(f) == 8 {
+		var ok bool
+		if pres, ok = kv(f[7], "pre"); !ok {
+			return "bad-op"
+		}
 	}
 	var origin2 []byte
 	wire := false
@@ -721,6 +751,40 @@ func execHistory(op string) string {
 		for _, pth := range paths {
 			os.Remove(pth)
 		}
+	} else if pres != "_" {
+		var pre []mod_cors.VerifPre
+		for _, x := range strings.Split(pres, ",") {
+			q := strings.Split(x, ".")
+			if len(q) != 5 {
+				return "bad-op"
+			}
+			after, err := strconv.Atoi(q[0])
+			pp, k1 := vh.UnHex(q[1])
+			pm, k2 := vh.UnHex(q[2])
+			po, k3 := vh.UnHex(q[3])
+			pa, k4 := vh.UnHex(q[4])
+			if err != nil || !k1 || !k2 || !k3 || !k4 {
+				return "bad-op"
+			}
+			pr := new(bfe_basic.Request)
+			pr.Session = new(bfe_basic.Session)
+			pr.Route.Product = string(pp)
+			ph, err := bfe_http.NewRequest("GET", "http://"+hitHost+"/res", nil)
+			if err != nil {
+				return "err:newrequest"
+			}
+			ph.Method = string(pm)
+			ph.Header = make(bfe_http.Header)
+			if len(po) > 0 {
+				ph.Header["Origin"] = []string{string(po)}
+			}
+			if len(pa) > 0 {
+				ph.Header["Access-Control-Request-Method"] = []string{string(pa)}
+			}
+			pr.HttpRequest = ph
+			pre = append(pre, mod_cors.VerifPre{After: after, Req: pr, Backend: make(bfe_http.Header)})
+		}
+		kind, h = mod_cors.VerifRunHistory2(confs, pre, req, backend)
 	} else {
 		kind, h, _ = mod_cors.VerifRunHistory(confs, req, backend)
 	}
